@@ -44,3 +44,17 @@ func VerifC15Load(cdyfile Input) (*Instance, Context, error) {
 	}
 	return inst, inst.context, nil
 }
+
+// VerifC15RunParsingCallbacks runs the parsing callbacks registered for directive dir
+// of the instance's server type (RegisterParsingCallback), in registration order, on the
+// instance's context — what executeDirectives does after the last setup function of dir.
+func VerifC15RunParsingCallbacks(inst *Instance, dir string) error {
+	if allCallbacks, ok := parsingCallbacks[inst.serverType]; ok {
+		for _, callback := range allCallbacks[dir] {
+			if err := callback(inst.context); err != nil {
+				return err
+			}
+		}
+	}
+	return nil
+}
